@@ -21,6 +21,11 @@ class Oracle:
     def decide(self, cond):
         key = repr(cond.t)
         if key in self.assumed: return self.assumed[key]      # a stated precondition of the code under test (e.g. `assert alpha0 > 0`)
+        # comparisons with an infinite constant are decided (symbolic values stand for finite reals)
+        k, a, b = cond.t
+        inf = lambda s, sign: s.t[0] == 'const' and s.t[1] == sign * math.inf
+        if k in ('lt', 'le') and (inf(a, -1) or inf(b, +1)) and not (inf(b, -1) or inf(a, +1)): return True
+        if k in ('lt', 'le') and (inf(a, +1) or inf(b, -1)): return False
         i = len(self.trace)
         v = self.prefix[i] if i < len(self.prefix) else True
         self.trace.append((cond, v))
@@ -32,6 +37,7 @@ ORACLE = Oracle()
 
 def lit(x):
     if isinstance(x, Sym): return x
+    if isinstance(x, np.ndarray) and x.size == 1: return lit(x.reshape(-1)[0])      # a one-element tensor
     if isinstance(x, (bool, np.bool_)): raise TypeError('boolean used as a number')
     if isinstance(x, (int, float, np.integer, np.floating)): return Sym(('const', float(x)))
     raise TypeError(f'cannot lift {type(x)}')
@@ -57,11 +63,14 @@ class Sym:
     def log(a): return Sym(('log', a))
     def exp(a): return Sym(('exp', a))
     def sqrt(a): return Sym(('sqrt', a))
+    @staticmethod
+    def app(fname, *args): return Sym(('app', fname, tuple(lit(a) for a in args)))     # uninterpreted function application
     def __lt__(a, b): return Cond(('lt', a, lit(b)))
     def __gt__(a, b): return Cond(('lt', lit(b), a))
     def __le__(a, b): return Cond(('le', a, lit(b)))
     def __ge__(a, b): return Cond(('le', lit(b), a))
-    def __eq__(a, b): raise TypeError('equality test on a symbolic number')
+    def __eq__(a, b): return Cond(('eq', a, lit(b)))
+    def __ne__(a, b): return Cond(('ne', a, lit(b)))
     def __bool__(a): raise TypeError('truth value of a symbolic number')
     def __float__(a): raise TypeError('float() of a symbolic number')
     __hash__ = None
@@ -131,8 +140,11 @@ def lean_expr(s, prim='P'):
     if k == 'pow': return f'({prim}.pow {lean_expr(t[1], prim)} {lean_expr(t[2], prim)})'
     if k == 'abs': return f'(absK {lean_expr(t[1], prim)})'
     if k in ('log', 'exp', 'sqrt'): return f'({prim}.{k} {lean_expr(t[1], prim)})'
+    if k == 'app': return '(' + t[1] + ''.join(' ' + lean_expr(a, prim) for a in t[2]) + ')'
     if k == 'lt': return f'{lean_expr(t[1], prim)} < {lean_expr(t[2], prim)}'
     if k == 'le': return f'{lean_expr(t[1], prim)} ≤ {lean_expr(t[2], prim)}'
+    if k == 'eq': return f'{lean_expr(t[1], prim)} = {lean_expr(t[2], prim)}'
+    if k == 'ne': return f'{lean_expr(t[1], prim)} ≠ {lean_expr(t[2], prim)}'
     raise ValueError(k)
 
 
